@@ -470,3 +470,6 @@ func vYieldKinds(kinds string) {}
 
 // vBlockedGo: number of goroutines the executor's scheduler holds blocked (-1 natively).
 func vBlockedGo() int { return -1 }
+
+// vPendingGoNamed: goroutines not yet finished whose function name contains the substring (-1 natively).
+func vPendingGoNamed(sub string) int { return -1 }
